@@ -114,7 +114,7 @@ PROPS = {
              "buffer_*/write_block*/rotate_output since it was opened == uncompressed size (+1 closing byte when closed by destruction with >=1 block). "
              "Non-trivial: >=1 block and (block > 2 KiB | rotation | compression | empty optional structure).",
         level_text="model-free accounting identity checked over random histories; independent decompression",
-        level_note="encoder-level return values are decided by C06; this check covers exporter/serialisation sums",
+        level_note="exporter and serialisation sums, plus the exhaustive encoder cell sweep shared with C06 for the return value of every encoder call",
         technique="property-based testing: stateful histories (rapidcheck) with accounting invariant",
         assumptions=[],
         jobs=[
